@@ -7,7 +7,7 @@ ALSO_RELEASE = True
 RULE = ('storage histories (deletes into already-indexed blobs = stale indexes, sessions ended with close or without '
         'it); between two sessions each index file gets one damage pattern: removed / truncated at a length (every '
         'section boundary +-2, inside header, inside the filter section, inside the tree, inside the leaves, random) / '
-        'header only / written-flag cleared / recorded blob size changed; reopen eager and lazy; every query + counts '
+        'header only / written-flag cleared / recorded blob size changed; reopen eager and lazy, optionally off-loading the re-read bloom filters; every query + counts '
         'must equal the answers before the close; next_blob_id must stay above all ids; debug and release builds; '
         'distinct by (cfg, damage class, outcome class)')
 ASSUMPTIONS = ['bit rot inside an index file that keeps header, meta and root parseable is not in the property\'s list']
@@ -21,9 +21,18 @@ def gen_script(rng):
     qs = []
     for k in g.keys:
         qs += ['R %s' % k, 'C %s' % k, 'RD %s' % k]
+    stale = rng.random() < 0.45
+    if stale:
+        # deletes whose markers go into already-indexed closed blobs, with the worker NOT given the chance to
+        # re-dump those indexes before the session ends: the index files on disk describe shorter blobs
+        L.append('autoquiesce 0')
+        for k in rng.sample(g.keys, min(len(g.keys), rng.choice([1, 2, 3]))):
+            L.append('D %s %d - %d' % (k, rng.choice([3, 50, 120]), rng.choice([1, 1, 0])))
     L.append('#PRE')
     L += qs + ['counts', 'ls']
     L.append(rng.choice(['close', 'close', 'drop']))
+    if stale:
+        L.append('autoquiesce 1')
     # damage: one pattern on one or two index files
     for _ in range(rng.choice([1, 1, 2])):
         idx = rng.randrange(0, 4)
@@ -45,9 +54,12 @@ def gen_script(rng):
             L.append('patch index %d 75 %s' % (idx, (rng.randrange(1, 60)).to_bytes(8, 'little').hex()))
     L.append('cfgnext init=%s' % rng.choice(['eager', 'lazy']))
     L.append('open')
+    if rng.random() < 0.4:
+        # filters re-read from the index files, their bloom buffers dropped: the probes go to the files
+        L.append('offload %d %d' % (rng.choice([1, 1000000]), rng.choice([0, 1, 2])))
     L += qs + ['counts']
     # the storage must keep working and the next restart must agree as well
-    L += ['W %s 100 - 5 777' % g.keys[0], 'R %s' % g.keys[0], 'close', 'open', 'R %s' % g.keys[0]]
+    L += ['W %s 1000 - 5 777' % g.keys[0], 'R %s' % g.keys[0], 'close', 'open', 'R %s' % g.keys[0]]
     return '\n'.join(L) + '\n'
 
 
